@@ -117,6 +117,18 @@ inductive Rewrite where
   | app    -- append mode, one external address
   deriving DecidableEq, Repr, Inhabited
 
+/-- ONE host address-rewrite rule (`AddressRewriteRule{AsCandidateType: host}`) of the shapes the harness
+installs: replace / append mode; catch-all (`pin = none`) or pinned to one local address (`Local:`);
+optionally scoped to one interface (`Iface:`); 1..n external addresses in declaration order. The general
+precedence among several rules is C19's subject (`IceModel/Rewrite.lean`, concrete numeric addresses); the
+gatherer only consumes the result of the lookup, which for a single rule is `HostRule.lookup` below. -/
+structure HostRule where
+  replace : Bool := true
+  pin : Option Addr := none
+  iface : Option Nat := none
+  exts : List Addr := []
+  deriving DecidableEq, Repr, Inhabited
+
 structure Config where
   candTypes : List CandType := []
   /-- as given; empty means "all" -/
@@ -147,9 +159,11 @@ structure Config where
   regardless of their family; link-local IPv6 externals are turned away by the location filter.
   Used instead of `srflxRewrite` (which stays `.none`). -/
   srflxPinned : Option (Bool × List Addr) := none
+  /-- the host rewrite rule, if any -/
+  hostRule : Option HostRule := none
   /-- the fake UDP mux parks `GetListenAddresses` until `release` -/
   hold : Bool := false
-  /-- which of the findings C18-G1 … G5 (numbered 1–5) the code under test still HAS (detected by canary sessions of the
+  /-- which of the findings C18-G1 … G5, G8, G9 (numbered 1–5, 8, 9) the code under test still HAS (detected by canary sessions of the
   harness); the empty list is the repaired code, about which the theorems speak -/
   quirks : List Nat := []
   deriving Repr, Inhabited
@@ -160,6 +174,7 @@ def Config.has (cfg : Config) (q : Nat) : Bool := cfg.quirks.contains q
 def realAddrs (cfg : Config) (ifs : List Iface) : Bool :=
   (ifs.all fun i => i.addrs.all (fun a => a.cls != .nm)) && ((cfg.udpMux.getD []).all (fun a => a.cls != .nm))
   && (((cfg.srflxPinned.map (·.2)).getD []).all (fun a => a.cls != .nm))
+  && (((cfg.hostRule.map (·.exts)).getD []).all (fun a => a.cls != .nm))
 
 def allNetTypes : List NetType := [.udp4, .udp6, .tcp4, .tcp6]
 
@@ -237,7 +252,49 @@ structure GUnit where
   url : Nat := 0
   /-- number of candidate addresses the unit produces (relay, srflx-mapped) -/
   n : Nat := 1
+  /-- host units: the address the candidate PUBLISHES (the socket stays on `bind`); differs from `bind`
+  only when a host rewrite rule maps `bind` -/
+  mapped : Addr := bind
   deriving DecidableEq, Repr, Inhabited
+
+/-- `findExternalIPs(host, l, iface)` for the single rule: `none` = not matched. `ifc = none` is the lookup
+without an interface name (UDP mux path), which an interface-scoped rule never matches. A pinned rule maps
+all its external addresses (of either family) to its local address; a catch-all maps a local address to the
+external addresses of the local address's family and matches only if there is one. -/
+def HostRule.lookup (r : HostRule) (l : Addr) (ifc : Option Nat) : Option (List Addr) :=
+  if r.iface.isSome && r.iface != ifc then none
+  else match r.pin with
+    | some p => if l == p then some r.exts else none
+    | none =>
+      let es := r.exts.filter (fun e => e.cls.is6 == l.cls.is6)
+      if es.isEmpty then none else some es
+
+/-- `shouldRewriteHostCandidates` + `applyHostAddressRewrite(addr, [addr], iface)`: the addresses published
+for interface address `a`. The literal of an IPv6 link-local interface address carries its zone, the lookup
+fails on it and the address is kept. -/
+def hostMapped (cfg : Config) (a : Addr) (ifc : Nat) : List Addr :=
+  if cfg.mdnsGather then [a] else
+  match cfg.hostRule with
+  | none => [a]
+  | some r =>
+    if a.cls.isLinkLocal6 then [a] else
+    match r.lookup a (some ifc) with
+    | none => [a]
+    | some es => (if r.replace then [] else [a]) ++ es
+
+/-- `applyHostRewriteForUDPMux`: the addresses published for mux listen address `a` (no interface name, no zone) -/
+def muxMapped (cfg : Config) (a : Addr) : List Addr :=
+  if cfg.mdnsGather then [a] else
+  match cfg.hostRule with
+  | none => [a]
+  | some r =>
+    match r.lookup a none with
+    | none => [a]
+    | some es => (if r.replace then [] else [a]) ++ es
+
+/-- C18-G8 fix: the RFC 8445 §5.1.1.1 exclusions (site-local, `::/96`) also apply to the address a host
+candidate publishes after rewriting (quirk 8 = the code without that guard) -/
+def hostPubOk (cfg : Config) (m : Addr) : Bool := !m.cls.is6 || m.cls.supported6 || cfg.has 8
 
 /-- `hostNetworkTypeEnabled` (G1/G2): the candidate's own network type must be configured -/
 def hostNetEnabled (nts : List NetType) (tcp : Bool) (a : Addr) : Bool :=
@@ -255,21 +312,23 @@ def hostIfaceUnits (cfg : Config) (ifs : List Iface) : List GUnit :=
   let nts := configured cfg.netTypes
   let hasTcp := nts.any (·.isTCP)
   let hasUdp := nts.any (fun t => !t.isTCP) && cfg.udpMux.isNone
-  (localAddrs cfg nts ifs).flatMap fun (a, _) =>
-    (if hasTcp && (hostNetEnabled nts true a || cfg.has 1) && tcpMuxAccepts cfg a
-      then [{ kind := .hostTcp, net := NetType.ofTransport true a.cls.is6, bind := a : GUnit }] else [])
-    ++ (if hasUdp && (hostNetEnabled nts false a || cfg.has 1)
-      then [{ kind := .hostUdp, net := NetType.ofTransport false a.cls.is6, bind := a : GUnit }] else [])
+  (localAddrs cfg nts ifs).flatMap fun (a, ifc) =>
+    (hostMapped cfg a ifc).flatMap fun m =>
+      (if hasTcp && (hostNetEnabled nts true m || cfg.has 1) && hostPubOk cfg m && tcpMuxAccepts cfg a
+        then [{ kind := .hostTcp, net := NetType.ofTransport true m.cls.is6, bind := a, mapped := m : GUnit }] else [])
+      ++ (if hasUdp && (hostNetEnabled nts false m || cfg.has 1) && hostPubOk cfg m
+        then [{ kind := .hostUdp, net := NetType.ofTransport false m.cls.is6, bind := a, mapped := m : GUnit }] else [])
 
 /-- units of `gatherCandidatesLocalUDPMux` before the duplicate-configuration test -/
 def hostMuxUnits (cfg : Config) : List GUnit :=
   match cfg.udpMux with
   | none => []
   | some addrs =>
-    (addrs.filter (fun a => (hostNetEnabled (configured cfg.netTypes) false a || cfg.has 2)
-        -- G5: the RFC 8445 §5.1.1.1 exclusions also apply to mux listen addresses
-        && (!a.cls.is6 || a.cls.supported6 || cfg.has 5))).map fun a =>
-      { kind := .hostMux, net := NetType.ofTransport false a.cls.is6, bind := a }
+    addrs.flatMap fun a =>
+      ((muxMapped cfg a).filter (fun m => (hostNetEnabled (configured cfg.netTypes) false m || cfg.has 2)
+        -- G5: the RFC 8445 §5.1.1.1 exclusions also apply to mux listen addresses (and what they are mapped to)
+        && (!m.cls.is6 || m.cls.supported6 || cfg.has 5))).map fun m =>
+      { kind := .hostMux, net := NetType.ofTransport false m.cls.is6, bind := a, mapped := m }
 
 /-- STUN-capable URLs: `stun:` URLs, then UDP `turn:` URLs (`urlSupportsSrflxGathering`) -/
 def srflxUrls (cfg : Config) : List Nat :=
@@ -366,17 +425,23 @@ def portRange (cfg : Config) : Option (Nat × Nat) :=
 /-- port flag of a socket opened through `listenUDPInPortRange`: the scan only tries ports of the range -/
 def ownPortFlag (cfg : Config) : PFlag := if (portRange cfg).isSome then .r else .e
 
+/-- host candidates: the address of the SOCKET, recorded only when the candidate publishes another one -/
+def GUnit.sockBase (u : GUnit) : Option Addr := if u.mapped == u.bind then none else some u.bind
+
 /-- the candidate a unit adds for its `ci`-th address, given the value `m` of the server's reply -/
 def unitCand (cfg : Config) (u : GUnit) (ci : Nat) (m : Nat) : CandD :=
   let pf : PFlag := ownPortFlag cfg
   match u.kind with
-  | .hostUdp => { ty := .host, net := u.net, addr := u.bind, mdns := cfg.mdnsGather, pflag := pf,
-                  hidden := !cfg.mdnsGather && u.bind.cls.isLinkLocal6 }
-  | .hostTcp => { ty := .host, net := u.net, addr := u.bind, mdns := cfg.mdnsGather, pflag := .M,
-                  hidden := !cfg.mdnsGather && u.bind.cls.isLinkLocal6 }
+  | .hostUdp => { ty := .host, net := u.net, addr := u.mapped, mdns := cfg.mdnsGather, pflag := pf,
+                  base := u.sockBase, hidden := !cfg.mdnsGather && u.mapped.cls.isLinkLocal6 }
+  | .hostTcp => { ty := .host, net := u.net, addr := u.mapped, mdns := cfg.mdnsGather, pflag := .M,
+                  base := u.sockBase, hidden := !cfg.mdnsGather && u.mapped.cls.isLinkLocal6 }
   | .hostMux =>
     if cfg.mdnsGather then { ty := .host, net := .udp4, addr := ⟨.nm, 0⟩, mdns := true, pflag := .M }
-    else { ty := .host, net := u.net, addr := u.bind, pflag := .M, hidden := u.bind.cls.isLinkLocal6 }
+    else { ty := .host, net := u.net, addr := u.mapped, pflag := .M, base := u.sockBase,
+           -- C18-G9 (quirk 9): the mux path tests the 16-byte form of an IPv4 external address, which for
+           -- 169.254/16 counts as "IPv6 link-local": started, never published
+           hidden := u.mapped.cls.isLinkLocal6 || (cfg.has 9 && u.mapped.cls == .k4 && u.mapped != u.bind) }
   | .srflx => { ty := .srflx, net := u.net, addr := ⟨if u.net.is6 then .x6 else .x4, m⟩, pflag := pf,
                 base := some u.bind }
   | .srflxMux => { ty := .srflx, net := u.net, addr := ⟨if u.net.is6 then .x6 else .x4, m⟩, pflag := .M,
@@ -833,12 +898,25 @@ def bumpMux (l : List ((Kind × Nat) × Nat)) (k : Kind) (tag : Nat) : List ((Ki
   if l.any (fun p => p.1 == (k, tag)) then l.map (fun p => if p.1 == (k, tag) then (p.1, p.2 + 1) else p)
   else l ++ [((k, tag), 1)]
 
+/-- the same IPv6 link-local address on two interfaces differs by its zone; an external address of a host rule
+has no zone -/
+def zoned (a b : CandD) : Bool :=
+  a.addr.cls.isLinkLocal6 && (a.ty != .host || a.base.isNone || b.base.isNone)
+
 /-- `Candidate.Equal` on the candidates the model can produce: only candidates on a mux port can
 collide (every socket the agent opens itself has its own port) -/
 def candEqual (a b : CandD) : Bool :=
-  a.pflag == .M && b.pflag == .M && a.ty == b.ty && a.net == b.net && a.addr == b.addr && a.base == b.base
-  -- the same IPv6 link-local address on two interfaces differs by its zone
-  && !a.addr.cls.isLinkLocal6
+  a.pflag == .M && b.pflag == .M && a.ty == b.ty && a.net == b.net && a.addr == b.addr
+  -- host candidates have no related address (their `base` is the socket's address, not part of `Equal`)
+  && (a.ty == .host || a.base == b.base)
+  && !zoned a b
+
+/-- … except that with a single-port range two sockets on DIFFERENT local addresses carry the same port: two
+host candidates that publish the same rewritten address then collide too -/
+def candEqualIn (cfg : Config) (a b : CandD) : Bool :=
+  candEqual a b
+  || (cfg.portMin != 0 && cfg.portMin == cfg.portMax && a.ty == .host && b.ty == .host && a.pflag == .r && b.pflag == .r
+      && a.net == b.net && a.addr == b.addr && !zoned a b)
 
 /-- does the unit's cycle still own the agent (not cancelled, agent not closed)? -/
 def jobLive (s : MState) (j : Job) : Bool :=
@@ -925,7 +1003,7 @@ def exec (s : MState) (j : Job) : Prog → MState × Job
   | .addCand ci is st fl =>
     let d := unitCand s.cfg j.unit ci j.m
     if !jobLive s j || !publishable s.cfg d then exec s j fl
-    else if s.cands.any (fun c => candEqual c.d d) then
+    else if s.cands.any (fun c => candEqualIn s.cfg c.d d) then
       -- duplicate: addCandidate closes the candidate and its connection itself
       exec { s with closes := s.closes + (j.takeAll is .dupClosed).2.length } (j.takeAll is .dupClosed).1 st
     else
@@ -950,7 +1028,8 @@ successfully are skipped before `GetConn` (`existingConfigs`) -/
 def runHostMux (s : MState) (c gen : Nat) : List GUnit → List CandD → MState
   | [], _ => s
   | u :: us, seen =>
-    let d := unitCand s.cfg u 0 0
+    -- `existingConfigs` is keyed by the candidate configuration (address, port, location flag), not by the socket
+    let d := { unitCand s.cfg u 0 0 with base := none }
     if seen.contains d then runHostMux s c gen us seen
     else
       let n := s.cands.length
@@ -1133,12 +1212,16 @@ def step (s : MState) : Op → MState × Rtok
 /-- constructor checks of `NewAgent` that concern gathering -/
 inductive NewErr where
   | port | uselessUrls
+  /-- a host rewrite rule together with mDNS gather mode / without the host candidate type -/
+  | mdnsRewrite | ineffectiveHost
   deriving DecidableEq, Repr, Inhabited
 
 def newAgent (cfg : Config) (ifs : List Iface) : Except NewErr MState :=
   if cfg.portMax < cfg.portMin then .error .port
   else if cfg.stunUrls + cfg.turnUrls > 0 && !cfg.candTypes.contains .srflx && !cfg.candTypes.contains .relay then
     .error .uselessUrls
+  else if cfg.hostRule.isSome && cfg.mdnsGather then .error .mdnsRewrite
+  else if cfg.hostRule.isSome && !cfg.candTypes.contains .host then .error .ineffectiveHost
   else .ok { cfg := cfg, ifs := ifs, gateClosed := cfg.hold }
 
 /-! ## 5. Observations (what the harness prints after every operation) -/
